@@ -24,7 +24,8 @@ HEAD = ["<meta charset=windows-1251>", '<meta http-equiv="Content-Type" content=
         '<meta http-equiv=refresh content="1; url=x">', "<meta CHARSET=old>",
         # a Content-Type pragma that declares no charset at all / an empty one: the rewrite must still produce a declaration
         '<meta http-equiv=Content-Type content="text/html">', '<meta content="a; CHARSET = " http-equiv=content-type>']
-BODIES = ["<p title=a>x</p>", "<p title=é>é x</p>", "<p title=😀>😀</p><meta charset=iso-8859-2>"]
+BODIES = ["<p title=a>x</p>", "<p title=é>é x</p>", "<p title=😀>😀</p><meta charset=iso-8859-2>",
+          "<p title=Écoleé data-q='Ñ=1'>École É;</p>"]      # (upper-case Latin-1: named references that also exist without ';')
 
 
 def encodings():
